@@ -36,6 +36,9 @@
  *   X <what> <status>                         child crashed / timed out (after the last B line)
  *   E <path>                                  file done
  */
+#ifndef _GNU_SOURCE
+#define _GNU_SOURCE	/* memmem */
+#endif
 #include "vcommon.h"
 #include <unistd.h>
 #include <signal.h>
@@ -139,16 +142,46 @@ static long cb_tell(void *priv)
 
 /* ---------------------------------------------------------------- variants */
 
-/* variant spec: ';'-separated ops: o | t:<len> | f:<off>.<bit> | z:<off>.<byte> */
+/* set by the variant op `N`: the generator certifies that these bytes are NOT a container of any kind the library
+ * documents (a near miss of a signature was planted): the FILE pair is then held to the agreement clause whatever
+ * libxmp_decrunch thinks of the bytes */
+static int force_noncontainer;
+/* set by the variant op `M`: only the memory pair is run (the title relation does not depend on the entry point) */
+static int only_memory;
+
+/* variant spec: ';'-separated ops: o | t:<len> | f:<off>.<bit> | z:<off>.<byte> | h:<off>.<hex bytes> (overwrite) |
+ * w:<off>.<len>.<first byte> (fill with a run of letters: no NUL, no blank) | N (certified non-container) |
+ * M (memory pair only) */
 static unsigned char *apply_variant(const unsigned char *orig, long osize, const char *spec, long *vsize)
 {
 	unsigned char *d = (unsigned char *)malloc(osize > 0 ? osize : 1);
 	long size = osize;
 	const char *s = spec;
 	memcpy(d, orig, osize);
+	force_noncontainer = 0;
+	only_memory = 0;
 	while (*s) {
-		long a = 0, b = 0;
-		if (s[0] == 't' && sscanf(s, "t:%ld", &a) == 1) {
+		long a = 0, b = 0, c = 0;
+		char hx[160];
+		if (s[0] == 'N') {
+			force_noncontainer = 1;
+		} else if (s[0] == 'M') {
+			only_memory = 1;
+		} else if (s[0] == 'h' && sscanf(s, "h:%ld.%159[0-9a-f]", &a, hx) == 2) {
+			size_t i, n = strlen(hx) / 2;
+			for (i = 0; i < n; i++) {
+				unsigned v = 0;
+				sscanf(hx + 2 * i, "%2x", &v);
+				if (a >= 0 && a + (long)i < size)
+					d[a + i] = (unsigned char)v;
+			}
+		} else if (s[0] == 'w' && sscanf(s, "w:%ld.%ld.%ld", &a, &b, &c) == 3) {
+			long i;
+			for (i = 0; i < b; i++) {
+				if (a >= 0 && a + i < size)
+					d[a + i] = (unsigned char)('A' + (c + i) % 26);
+			}
+		} else if (s[0] == 't' && sscanf(s, "t:%ld", &a) == 1) {
 			if (a >= 1 && a < size)
 				size = a;
 		} else if (s[0] == 'f' && sscanf(s, "f:%ld.%ld", &a, &b) == 2) {
@@ -307,10 +340,12 @@ static void run_variant(const char *vname, const unsigned char *data, long size,
 		exit(4);
 	}
 	fclose(fp);
-	container = is_container(path);
+	container = force_noncontainer ? 0 : is_container(path);
 
 	for (pair = 0; pair < 4; pair++) {
 		struct xmp_test_info ti;
+		if (only_memory && pair != 2)
+			continue;
 		struct xmp_callbacks cbs;
 		struct cbdata cd;
 		struct xmp_module_info mi;
@@ -524,6 +559,30 @@ static void run_file(const char *path, uint64_t seed, int nmut, long maxsize, co
 			n = nmut / 4;
 		vrng_seed(seed ^ fnv1a(FNV_INIT, path, strlen(path)));
 		run_variant("o", orig, osize, 0);
+		/* title-fill variants: where the reported title can be found in the file, the field is overwritten with a
+		 * run of letters (no NUL, no blank) of a width some format uses: a test function and a loader that read the
+		 * title with different widths then report different titles */
+		{
+			static const int widths[] = { 20, 22, 24, 26, 28, 30, 32, 36, 40, 44, 48, 59, 60, 63, 64 };
+			struct xmp_test_info ti;
+			size_t tl;
+			if (nmut > 0 && osize <= 4 * maxsize && xmp_test_module_from_memory(orig, osize, &ti) == 0 && (tl = strlen(ti.name)) >= 3) {
+				long lim = osize < 65536 ? osize : 65536;
+				unsigned char *at = (unsigned char *)memmem(orig, lim, ti.name, tl);
+				if (at != NULL) {
+					int nw = (int)(sizeof(widths) / sizeof(widths[0])), k;
+					for (k = 0; k < nw; k++) {
+						if (widths[k] < (int)tl)
+							continue;
+						/* memory pair only: the title relation does not depend on the entry point */
+						snprintf(spec, sizeof(spec), "M;w:%ld.%d.%d", (long)(at - orig), widths[k], (int)vrng_below(26));
+						d = apply_variant(orig, osize, spec, &vsize);
+						run_variant(spec, d, vsize, 0);
+						free(d);
+					}
+				}
+			}
+		}
 		for (v = 0; v < n; v++) {
 			gen_variant(spec, sizeof(spec), osize);
 			d = apply_variant(orig, osize, spec, &vsize);
